@@ -1790,6 +1790,20 @@ def rule_coverage_monotone(db: ProgramDB) -> List[Instance]:
             n_sites += 1
             kind, _, node = target
             verdict, why = VIOLATION, f"`{unparse(node)[:80]}` takes recorded bindings out of the coverage record outside clear()"
+            if kind == "assign" and isinstance(node, (ast.Assign, ast.AugAssign)):
+                # re-binding the record to itself plus something only adds: self.seen = self.seen + [a] / [*self.seen, a] / self.seen += [a]
+                v = node.value
+                me = {f"self.{f}" for f in store_fields}
+                grows = isinstance(node, ast.AugAssign) and isinstance(node.op, (ast.Add, ast.BitOr))
+                if isinstance(v, ast.BinOp) and isinstance(v.op, (ast.Add, ast.BitOr)) and (unparse(v.left) in me or unparse(v.right) in me):
+                    grows = True
+                if isinstance(v, (ast.List, ast.Set, ast.Tuple)) and any(isinstance(e, ast.Starred) and unparse(e.value) in me for e in v.elts):
+                    grows = True
+                if grows:
+                    out.append(inst("COVERAGE-MONOTONE", HOLDS, meth, f"SeenSet.{name}[{unparse(node)[:50]}]", "adds to the record", line=node.lineno))
+                    continue
+                if not isinstance(v, ast.ListComp):
+                    verdict, why = UNDECIDED, f"`{unparse(node)[:80]}` rebinds the coverage record in a way that is not in the accepted table"
             if kind == "assign" and isinstance(node, ast.Assign) and isinstance(node.value, ast.ListComp) and len(node.value.generators) == 1:
                 g = node.value.generators[0]
                 if isinstance(g.target, ast.Name) and isinstance(node.value.elt, ast.Name) and node.value.elt.id == g.target.id \
